@@ -47,7 +47,7 @@ func init() {
 			signal.Notify(sigterm, syscall.SIGTERM)
 		},
 		Floors: func(tier string) map[string]int64 {
-			return map[string]int64{"corrupted_proposals_delivered": 80, "nil_prevotes_on_corrupted_proposal": 150, "commits": 300, "corruptions_at_height_ge2": 30, "recovered_next_round_commit": 40}
+			return map[string]int64{"corrupted_proposals_delivered": 80, "nil_prevotes_on_corrupted_proposal": 150, "commits": 300, "corruptions_at_height_ge2": 30, "recovered_next_round_commit": 40, "corrupted_proposals_with_pol_round": 8, "total_power_mod3=2": 8, "corruption:lastcommit/too-few-precommits": 8}
 		},
 	})
 }
@@ -151,19 +151,36 @@ var corruptions = []corruption{
 		return true
 	}},
 	{"lastcommit/too-few-precommits", 2, func(r *rng.R, b *types.Block, e *env) bool {
+		// keep the subset with the LARGEST tally that is still <= 2/3 of the total power (the exact boundary)
 		pcs := commitVotes(b)
-		// keep only as many as make <= 2/3 of the power (equal powers: 2 of 4)
-		kept := 0
-		for i := range pcs {
-			if pcs[i] != nil {
-				kept++
-				if kept > 2 {
-					pcs[i] = nil
+		vals := e.status.LastValidators
+		total := vals.TotalVotingPower()
+		n := len(pcs)
+		best, bestMask := int64(-1), 0
+		for mask := 0; mask < 1<<uint(n); mask++ {
+			var t int64
+			ok := true
+			for i := 0; i < n; i++ {
+				if mask&(1<<uint(i)) != 0 {
+					if pcs[i] == nil {
+						ok = false
+						break
+					}
+					_, v := vals.GetByIndex(i)
+					t += v.VotingPower
 				}
+			}
+			if ok && 3*t <= 2*total && t > best {
+				best, bestMask = t, mask
+			}
+		}
+		for i := 0; i < n; i++ {
+			if bestMask&(1<<uint(i)) == 0 {
+				pcs[i] = nil
 			}
 		}
 		setCommit(b, newCommit(b.LastCommit.BlockID, pcs))
-		return true
+		return best >= 0
 	}},
 	{"lastcommit/all-nil", 2, func(r *rng.R, b *types.Block, e *env) bool {
 		setCommit(b, newCommit(b.LastCommit.BlockID, make([]*types.Vote, len(b.LastCommit.Precommits))))
@@ -365,13 +382,26 @@ func run(c *core.Ctx) {
 	for len(sigterm) > 0 {
 		<-sigterm
 	}
-	g, err := chainkit.BuildGenesis(chainkit.GenesisOpts{Seed: r.Uint64(), NumAccounts: 3, Powers: []int64{10, 10, 10, 10}})
+	powers := [][]int64{{10, 10, 10, 10}, {10, 10, 10, 10}, {1, 1, 1, 1, 1}, {3, 2, 2, 1}, {2, 2, 2, 1, 1}, {5, 4, 3, 2}, {7, 7, 7, 2}}[r.Intn(7)]
+	g, err := chainkit.BuildGenesis(chainkit.GenesisOpts{Seed: r.Uint64(), NumAccounts: 3, Powers: powers})
 	if err != nil {
 		c.Inconclusive("genesis: " + err.Error())
 		return
 	}
-	byzID := r.Intn(4)
-	byz := make([]bool, 4)
+	var total int64
+	for _, p := range powers {
+		total += p
+	}
+	c.Count(fmt.Sprintf("total_power_mod3=%d", total%3), 1)
+	// the Byzantine validator: any one holding strictly less than a third
+	byzID := -1
+	for _, i := range r.Perm(len(powers)) {
+		if 3*powers[i] < total {
+			byzID = i
+			break
+		}
+	}
+	byz := make([]bool, len(powers))
 	byz[byzID] = true
 	sim, apps, err := realsim.New(r.Split(), g, byz, detsim.Config{Heights: 1000, MaxSteps: 0, Scratch: c.Scratch, KeepTrace: c.Verbose})
 	if err != nil {
@@ -400,9 +430,25 @@ func run(c *core.Ctx) {
 		}
 	}
 	ci := r.Intn(len(corruptions))
+	if r.Chance(0.15) {
+		// the quorum boundary deserves more than 1/25 of the cases
+		for i, cc := range corruptions {
+			if cc.Name == "lastcommit/too-few-precommits" {
+				ci = i
+			}
+		}
+	}
 	cor := corruptions[ci]
 	targetH := cor.MinH + uint64(r.Intn(3))
 	e := &env{sim: sim, g: g, byzKey: sim.Vals[byzID].Priv, chainID: sim.ChainID}
+	// half of the cases: at the target height every honest proposal is lost until the Byzantine validator's
+	// turn comes in a round > 0; its corrupted proposal then names an earlier round (which ended with +2/3
+	// nil prevotes) as proof-of-lock round.
+	lateRound := r.Bool()
+	suppressH := uint64(0)
+	sim.DropFilter = func(pm *detsim.PoolMsg, n *detsim.Node) bool {
+		return suppressH != 0 && pm.Height == suppressH && !pm.Byz && (pm.Kind == "proposal" || pm.Kind == "part")
+	}
 	corrupted := map[common.Hash]string{}
 	proposed := map[[2]uint64]bool{}
 	var corruptedAt [2]uint64
@@ -430,7 +476,7 @@ func run(c *core.Ctx) {
 			nilPrevotes++
 		}
 	}
-	maxSteps := 2500
+	maxSteps := 4000
 	recovered := false
 	for step := 0; step < maxSteps && !sim.Mon.Fatal(); step++ {
 		// adversary: is it the Byzantine validator's turn somewhere?
@@ -440,6 +486,11 @@ func run(c *core.Ctx) {
 				continue
 			}
 			k := [2]uint64{rs.Height, uint64(rs.Round)}
+			if lateRound && !haveCorrupted && rs.Height >= targetH && suppressH == 0 && rs.Round == 0 &&
+				string(rs.Validators.GetProposer().Address) != string(e.byzKey.PubKey().Address()) {
+				suppressH = rs.Height
+				c.Count("heights_with_suppressed_honest_proposals", 1)
+			}
 			if proposed[k] || string(rs.Validators.GetProposer().Address) != string(e.byzKey.PubKey().Address()) {
 				continue
 			}
@@ -487,7 +538,18 @@ func run(c *core.Ctx) {
 			} else {
 				c.Count("honest_byzantine_proposals", 1)
 			}
-			pr := types.NewProposal(rs.Height, rs.Round, parts.Header(), -1, types.BlockID{})
+			polRound := -1
+			if name != "" && rs.Round > 0 && r.Chance(0.8) {
+				polRound = r.Intn(rs.Round)
+				c.Count("corrupted_proposals_with_pol_round", 1)
+			}
+			if name != "" && rs.Round > 0 {
+				c.Count("corrupted_proposals_round_gt0", 1)
+			}
+			if name != "" {
+				suppressH = 1 << 62 // stop suppressing: the network is benign again
+			}
+			pr := types.NewProposal(rs.Height, rs.Round, parts.Header(), polRound, types.BlockID{})
 			pr.Timestamp = time.Unix(1569409200+int64(step), 0).UTC()
 			pr.Type = types.ProposalTypeNormal
 			sig, _ := e.byzKey.Sign(pr.SignBytes(sim.ChainID))
